@@ -45,6 +45,9 @@ mut("c03-allen-cahn-fraction", "C03", "stepper/reaction/_allen_cahn.py", "dealia
 mut("c03-gradnorm-half", "C03", "nonlin_fun/_gradient_norm.py", "u_gradient_norm_squared_hat = 0.5 * self.fft(u_gradient_norm_squared)", "u_gradient_norm_squared_hat = self.fft(u_gradient_norm_squared)", "factor 1/2 dropped")
 mut("c03-conv-axis", "C03", "nonlin_fun/_convection.py", "            self.derivative_operator[None, :] * u_outer_product_hat,", "            self.derivative_operator[:, None] * u_outer_product_hat,", "divergence taken with the channel's own derivative")
 mut("c03-no-post-dealias", "C03", "nonlin_fun/_base.py", "        u_hat = fft(u, num_spatial_dims=self.num_spatial_dims)\n        if self.dealiasing_mask is not None:\n            u_hat = self.dealiasing_mask * u_hat\n        return u_hat", "        u_hat = fft(u, num_spatial_dims=self.num_spatial_dims)\n        return u_hat", "post-dealiasing lost")
+mut("c03-class-default-fraction", "C03", "nonlin_fun/_projected_convection.py", "        dealiasing_fraction: float = 2 / 3,\n    ):\n        \"\"\"\n        Performs a pseudo-spectral evaluation of the nonlinear convection term", "        dealiasing_fraction: float = 2 / 2,\n    ):\n        \"\"\"\n        Performs a pseudo-spectral evaluation of the nonlinear convection term", "default fraction of a public nonlinear-function class no longer alias-free (mutation survey survivor)")
+mut("c03-mask-default-radial", "C03", "_spectral.py", "    cutoff: int,\n    axis_separate: bool = True,", "    cutoff: int,\n    axis_separate: bool = False,", "default of the mask helper flipped: radial instead of per-axis band")
+ben("c03-class-default-smaller", "C03", "nonlin_fun/_convection.py", "        dealiasing_fraction: float = 2 / 3,", "        dealiasing_fraction: float = 1 / 2,", "a smaller default fraction stays alias-free")
 ben("c03-conv-reorder", "C03", "nonlin_fun/_convection.py", "            u * nabla_u,\n            axis=0,", "            nabla_u * u,\n            axis=0,", "commuted product")
 ben("c03-gs-rewrite", "C03", "stepper/reaction/_gray_scott.py", "self.feed_rate * (1 - u[0]) - u[0] * u[1] ** 2,", "self.feed_rate - self.feed_rate * u[0] - u[1] * u[0] * u[1],", "expanded polynomial")
 # ------------------------------------------------------------------------------------------ C04
@@ -145,3 +148,9 @@ ben("c14-rollout-rename", "C14", "_utils.py", "            u_next = stepper_fn(u
 ben("c02-property", "C02", "etdrk/_etdrk_1.py", ("        return self._exp_term * u_hat + self._coef_1 * self._nonlinear_fun(u_hat)", ), ("        return self.propagator * u_hat + self._coef_1 * self._nonlinear_fun(u_hat)\n\n    @property\n    def propagator(self):\n        return self._exp_term", ), "field read through a property")
 ben("c20-call-guard-helper", "C20", "_base_stepper.py", "        if u.shape != expected_shape:\n            raise ValueError(", "        self._check(u, expected_shape)\n        return self.step(u)\n\n    def _check(self, u, expected_shape):\n        if u.shape != expected_shape:\n            raise ValueError(", "guard moved into a helper called unconditionally")
 ben("c06-try", "C06", "_base_stepper.py", "        self.dx = domain_extent / num_points\n", "        try:\n            self.dx = domain_extent / num_points\n        except ZeroDivisionError:\n            raise ValueError(\"num_points must be positive\")\n", "try/except around a static computation")
+
+# ------------------------------------------------------------------------------------------ mutation-survey survivors (round 1)
+mut("c04-derivative-indexing-not-forwarded", "C04", "_spectral.py", "    derivative_operator = build_derivative_operator(\n        num_spatial_dims, domain_extent, num_points, indexing=indexing\n    )\n    # # I decided", "    derivative_operator = build_derivative_operator(\n        num_spatial_dims, domain_extent, num_points\n    )\n    # # I decided", "derivative(indexing='xy') differentiates along the wrong array axis")
+mut("c04-incompressible-indexing-not-forwarded", "C04", "_spectral.py", "        num_spatial_dims, 1.0, num_points, indexing=indexing\n", "        num_spatial_dims, 1.0, num_points\n", "make_incompressible(indexing='xy') projects with transposed wavenumbers")
+mut("c15-interpolator-wavenumber-indexing", "C15", "_interpolation.py", "            self.num_points,\n            indexing=indexing,\n        )\n\n    def __call__", "            self.num_points,\n        )\n\n    def __call__", "FourierInterpolator(indexing='xy') pairs query coordinates with the wrong axis")
+ben("c15-interpolator-scaling-indexing", "C15", "_interpolation.py", "                mode=\"reconstruction\",\n                indexing=indexing,\n", "                mode=\"reconstruction\",\n", "the scaling array is a product of per-axis factors with equal leading axes: indexing does not change it")
